@@ -1,4 +1,155 @@
-import Nstd.Path.Model
+import Nstd.Path.Lemmas
+/-
+  Property C19, path part: theorems about the model of the path functions of File.cpp
+  (Nstd/Path/Model.lean) for ALL byte strings.  Spec: Nstd/Path/Spec.lean (`denote`, `render`, `join`).
+-/
 namespace Nstd.Path
-theorem placeholder : simplifyPath [47, 97, 47, 46, 46] = [47] := by decide
+
+/-- simplifyPath returns the canonical text of what the path denotes. -/
+theorem simplify_canonical (p : Bytes) : simplifyPath p = render (denote p) :=
+  simplifyPath_eq_render p
+
+/-- simplifyPath is lexically equivalent to its input: same (absolute?, leading `..`, components). -/
+theorem simplify_equiv (p : Bytes) : denote (simplifyPath p) = denote p := by
+  rw [simplifyPath_eq_render, denote_render _ (denote_valid p).1]
+
+/-- simplifyPath is idempotent. -/
+theorem simplify_idem (p : Bytes) : simplifyPath (simplifyPath p) = simplifyPath p := by
+  rw [simplifyPath_eq_render (simplifyPath p), simplify_equiv, ← simplifyPath_eq_render]
+
+/-- equivalent paths have the same simplified text (simplifyPath decides lexical equivalence) -/
+theorem simplify_eq_iff (p q : Bytes) : simplifyPath p = simplifyPath q ↔ denote p = denote q := by
+  constructor
+  · intro h
+    have := congrArg denote h
+    rwa [simplify_equiv, simplify_equiv] at this
+  · intro h
+    rw [simplifyPath_eq_render, simplifyPath_eq_render, h]
+
+/-- directory name + the separator that was there + base name give back the path, byte for byte;
+    a path without separator has directory `.` and is its own base name. -/
+theorem dir_base_recompose (p : Bytes) :
+    (∃ s, isSep s = true ∧ p = getDirectoryName p ++ s :: getBaseName p [] ∧
+        ∀ x ∈ getBaseName p [], isSep x = false) ∨
+    ((∀ x ∈ p, isSep x = false) ∧ getDirectoryName p = [46] ∧ getBaseName p [] = p) := by
+  have hb : getBaseName p [] = afterLastSep p := by simp [getBaseName]
+  rw [hb]
+  unfold getDirectoryName afterLastSep
+  cases h : splitLast isSep p with
+  | some t =>
+    obtain ⟨d, s, b⟩ := t
+    obtain ⟨h1, h2, h3⟩ := splitLast_some h
+    exact Or.inl ⟨s, h2, h1, h3⟩
+  | none => exact Or.inr ⟨splitLast_none.mp h, rfl, rfl⟩
+
+/-- … and `dir / base` denotes the same path, for every string. -/
+theorem dir_base_denote (p : Bytes) : denote (getDirectoryName p ++ 47 :: getBaseName p []) = denote p := by
+  have hb : getBaseName p [] = afterLastSep p := by simp [getBaseName]
+  rw [hb]
+  unfold getDirectoryName afterLastSep
+  cases h : splitLast isSep p with
+  | some t =>
+    obtain ⟨d, s, b⟩ := t
+    obtain ⟨h1, h2, _⟩ := splitLast_some h
+    simp only
+    unfold denote
+    rw [h1, chunks_append_sep d 47 b (by decide), chunks_append_sep d s b h2]
+    cases d with
+    | nil =>
+      have : startsWithSlash ([] ++ s :: b) = true := h2
+      rw [this]; rfl
+    | cons a as => rfl
+  | none =>
+    have hp := splitLast_none.mp h
+    simp only
+    unfold denote
+    rw [chunks_append_sep [46] 47 p (by decide)]
+    have h1 : chunks [46] = [[46]] := by decide
+    have h2 : startsWithSlash (([46] : Bytes) ++ 47 :: p) = false := rfl
+    have h3 : startsWithSlash p = false := by
+      cases p with
+      | nil => rfl
+      | cons a as => exact hp a (List.mem_cons_self)
+    rw [h1, h2, h3]
+    simp [dstep]
+
+/-- stem + "." + extension give back the base name whenever it contains a dot; otherwise the stem is
+    the base name and the extension is empty.  The extension never contains a dot. -/
+theorem stem_ext_recompose (p : Bytes) :
+    (46 ∈ getBaseName p [] → getBaseName p [] = getStem p [] ++ 46 :: getExtension p) ∧
+    (46 ∉ getBaseName p [] → getStem p [] = getBaseName p [] ∧ getExtension p = []) ∧
+    46 ∉ getExtension p := by
+  have hb : getBaseName p [] = afterLastSep p := by simp [getBaseName]
+  rw [hb]
+  simp only [getStem, getExtension, ne_eq, not_true_eq_false, if_false]
+  cases h : splitLast isDot (afterLastSep p) with
+  | some t =>
+    obtain ⟨d, s, e⟩ := t
+    obtain ⟨h1, h2, h3⟩ := splitLast_some h
+    have hs : s = 46 := by simpa [isDot] using h2
+    subst hs
+    refine ⟨fun _ => h1, fun hn => absurd (by rw [h1]; simp) hn, ?_⟩
+    intro hm
+    have := h3 46 hm
+    simp [isDot] at this
+  | none =>
+    have hn := splitLast_none.mp h
+    refine ⟨fun hm => ?_, fun _ => ⟨rfl, rfl⟩, by simp⟩
+    have := hn 46 hm
+    simp [isDot] at this
+
+/-- with an explicit extension getStem is getBaseName (as File.cpp says) and it strips exactly a
+    matching suffix: the result is a prefix of the base name, and when something was stripped the
+    stripped text is `.`+extension (or the extension itself when that starts with a dot). -/
+theorem base_ext_prefix (p e : Bytes) : ∃ t, getBaseName p [] = getBaseName p e ++ t ∧
+    (t = [] ∨ t = e ∨ t = 46 :: e) := by
+  have hb : getBaseName p [] = afterLastSep p := by simp [getBaseName]
+  rw [hb]
+  unfold getBaseName
+  simp only
+  by_cases h0 : e.length = 0
+  · exact ⟨[], by simp [h0], Or.inl rfl⟩
+  · simp only [h0, if_false]
+    by_cases h1 : e.head? = some 46
+    · simp only [h1, if_true]
+      by_cases h2 : (afterLastSep p).length ≥ e.length ∧
+          List.drop ((afterLastSep p).length - e.length) (afterLastSep p) = e
+      · rw [if_pos h2]
+        refine ⟨e, ?_, Or.inr (Or.inl rfl)⟩
+        conv => lhs; rw [← List.take_append_drop ((afterLastSep p).length - e.length) (afterLastSep p)]
+        rw [h2.2]
+      · rw [if_neg h2]; exact ⟨[], by simp, Or.inl rfl⟩
+    · simp only [h1, if_false]
+      by_cases h2 : (afterLastSep p).length ≥ e.length + 1 ∧
+          (afterLastSep p)[(afterLastSep p).length - (e.length + 1)]? = some 46 ∧
+          List.drop ((afterLastSep p).length - e.length) (afterLastSep p) = e
+      · rw [if_pos h2]
+        refine ⟨46 :: e, ?_, Or.inr (Or.inr rfl)⟩
+        obtain ⟨h3, h4, h5⟩ := h2
+        conv => lhs; rw [← List.take_append_drop ((afterLastSep p).length - (e.length + 1)) (afterLastSep p)]
+        congr 1
+        have hlt : (afterLastSep p).length - (e.length + 1) < (afterLastSep p).length := by omega
+        rw [List.drop_eq_getElem_cons hlt]
+        have : (afterLastSep p)[(afterLastSep p).length - (e.length + 1)] = 46 := by
+          have := List.getElem?_eq_getElem hlt
+          rw [this] at h4
+          exact Option.some.inj h4
+        rw [this]
+        congr 1
+        have : (afterLastSep p).length - (e.length + 1) + 1 = (afterLastSep p).length - e.length := by omega
+        rw [this, h5]
+      · rw [if_neg h2]; exact ⟨[], by simp, Or.inl rfl⟩
+
+/-
+OPEN: relative_correct — for all `f t`,
+    RelExists f t → denote (join f (getRelativePath f t)) = denote t
+  and  ¬ RelExists f t → getRelativePath f t = []   (empty = "there is no relative path").
+  (the prefix walk of getRelativePath is modelled and run against the implementation for all pairs of
+  strings of length ≤ 4 over {a,b,'.','/','\\'} and random pairs; see Nstd/Path/PropsRel.lean for what is proved.)
+-/
+
+/-! non-vacuity / sanity -/
+example : simplifyPath [47, 97, 47, 46, 46] = [47] := by decide
+example : getStem [97, 46, 116, 46, 103] [] ++ 46 :: getExtension [97, 46, 116, 46, 103] = [97, 46, 116, 46, 103] := by decide
+
 end Nstd.Path
